@@ -176,3 +176,24 @@ Theorem C04_discinfo_roundtrip_checked :
   forall d text, di_applicableb d = true -> dump_di d = Ok text -> load_di text = Ok d.
 Proof. exact di_roundtrip_checked. Qed.
 Print Assumptions C04_discinfo_roundtrip_checked.
+
+(* variants: in a tree whose top-level variants have no children, every variant the reader returns for the written table is one of
+   the written variants, with exactly its id, uid, name and type, no children, and every one of the path kinds of the regenerated
+   table equal to what was written (a set path as written, an unset one as None).  Proof: the variant writer leaves in its own,
+   fresh section exactly these options; no other writer step touches a [variant-*]/[addon-*] section; the reader reads that section. *)
+From PM Require Import Proofs.TreeInfoVariants.
+Theorem C04_flat_variants_read_back :
+  forall x mv t x', ser_ti x mv = Ok t -> deser_ti t = Ok x' -> (forall kv, In kv (ti_variants x) -> flat kv) ->
+  forall key v', In (key, v') (ti_variants x') ->
+  exists kv, In kv (ti_variants x) /\
+    tv_fields v' = [(F"id", getf (tv_fields (snd kv)) (F"id")); (F"uid", getf (tv_fields (snd kv)) (F"uid"));
+                    (F"name", getf (tv_fields (snd kv)) (F"name")); (F"type", getf (tv_fields (snd kv)) (F"type"))] /\
+    tv_children v' = [] /\
+    (forall fld, In fld TI_PATH_FIELDS -> getf (tv_paths v') fld = getf (tv_paths (snd kv)) fld).
+Proof. exact flat_variants_read_back. Qed.
+Print Assumptions C04_flat_variants_read_back.
+
+Example C04_flat_variants_nonvacuous :
+  exists t x' v', ser_ti ex_ti None = Ok t /\ deser_ti t = Ok x' /\ (forall kv, In kv (ti_variants ex_ti) -> flat kv) /\
+    In (F"Server", v') (ti_variants x') /\ getf (tv_paths v') (F"packages") = PStr (F"Packages").
+Proof. exact flat_variants_nonvacuous. Qed.
